@@ -196,6 +196,9 @@ def run_rules(prop, tier, repo=None, cache=None, target=None):
     ctx = Ctx(prop, tier, facts, repo=repo)
     try:
         mod.check(ctx)
+        # premise of every property: the facts come from the debug profile; debug-only code must be effect-free
+        from . import profile
+        profile.analyze(ctx, prop + ".z")
     except mirlib.AnchorMissing as e:
         ctx.missing(prop + ".anchor", str(e))
     except Exception as e:  # fail closed: a rule that cannot interpret the code decides nothing
